@@ -150,8 +150,15 @@ def scenario_for(seed, index, tier):
                      'status': {'status': {'mode': 'reply', 'json': _json.dumps({
                          'version': {'name': 'sim', 'protocol': proto},
                          'description': {'text': 'c11'}})}}}
+    # an application thread that keeps writing forced packets of its own
+    # for as long as the session lasts (also while the server's disconnect
+    # packet is being handled)
+    forced_writer = None
+    if not kick and rng.random() < 0.12:
+        forced_writer = {'n': rng.choice([5, 30, 120]),
+                         'gap_us': rng.choice([0, 50, 2000])}
     return {
-        'negotiate': negotiate,
+        'negotiate': negotiate, 'forced_writer': forced_writer,
         'slow_listener': slow, 'flood': flood,
         'proto': proto, 'compress': compress, 'history': hist,
         'user_packets': user_packets, 'kick': kick, 'reason': reason,
@@ -176,7 +183,7 @@ def policy(rng, scenario):
 
 def execute(scenario, tape):
     w = World(scenario, tape)
-    st = {'log': [], 'errs': [], 'exits': [], 'in_play': False}
+    st = {'log': [], 'log_seq': [], 'errs': [], 'exits': [], 'in_play': False}
     ids = ids_for(scenario['proto'])
 
     def build(w):
@@ -199,6 +206,7 @@ def execute(scenario, tape):
                 return
             if st['in_play']:
                 st['log'].append((p.id, type(p) is Packet))
+                st['log_seq'].append(w.sim.seq)
                 sl = scenario.get('slow_listener')
                 if sl and len(st['log']) % sl['every'] == 0:
                     w.sleep(sl['us'])
@@ -213,6 +221,23 @@ def execute(scenario, tape):
             conn.register_packet_listener(
                 lambda p: w.sleep(scenario['negotiate']['linger_us']),
                 clientbound.status.ResponsePacket)
+
+        def forced_writer():
+            fw = scenario['forced_writer']
+            w.wait_until(lambda: st['in_play'] or st['errs'], 30000000)
+            st['fw_ok'] = 0
+            for i in range(fw['n']):
+                if st['errs'] or st['exits']:
+                    break
+                r = w.api('forced-write', conn.write_packet,
+                          serverbound.play.ChatPacket(message='w%d' % i),
+                          force=True)
+                if r.ok:
+                    st['fw_ok'] += 1
+                if fw['gap_us']:
+                    w.sleep(fw['gap_us'])
+        if scenario.get('forced_writer'):
+            w.sim.spawn(forced_writer, 'user1')
 
         def user():
             st['connect'] = w.api('connect', conn.connect)
@@ -269,13 +294,17 @@ def check(scenario, w, st, res, ids):
         if scenario.get('kick') and (sim.stats.get('fault.send-error') or
                                      sim.stats.get('fault.rst')) and \
                 all(isinstance(e, OSError) for e in st['errs']) and \
-                app.out_frames and \
-                app.conn.s2c_consumed < app.out_frames[-1][1]:
-            # the client's own send failed on the closed socket and it gave
-            # up before it had read as far as the server's disconnect packet
-            # (how many packets it reads per round before it reports a
-            # pending write error is its own business): no disconnect packet
-            # was seen, so nothing is claimed about this run
+                app.conn.first_send_fail_seq is not None and \
+                sum(1 for q in st['log_seq']
+                    if q <= app.conn.first_send_fail_seq) < \
+                sum(1 for it in hist if it[0] != 'pause'):
+            # the client's own send failed on the closed socket while packets
+            # BEFORE the server's disconnect packet were still unread, and it
+            # gave up (how many more packets it reads before it reports a
+            # pending write error is its own business): nothing is claimed
+            # about this run.  When the disconnect packet was the very next
+            # one to read as the send failed, the verdict stands: reading on
+            # is what keeps a kick from being reported as an error.
             res.probes['kick-write-error-before-disconnect-was-read'] = 1
             res.nontrivial = False
             return
@@ -375,11 +404,26 @@ def check(scenario, w, st, res, ids):
              for i in range((scenario.get('flood') or {'n': 0})['n'])]
         if scenario.get('flood'):
             res.probes['listener-queued-a-burst'] = 1
-        got = [b for _s, pid, b in frames if pid == ids['sb.play.chat']]
+        got = [b for _s, pid, b in frames if pid == ids['sb.play.chat']
+               and not bytes(b)[1:2] == b'w']
         ob(len(want))
         if got != want:
             V.append(('C11/user-packets-mismatch',
                       {'n_got': len(got), 'n_want': len(want)}))
+    if scenario.get('forced_writer'):
+        # the other thread's forced packets: whole, in order, none twice
+        ws = [bytes(b) for _s, pid, b in frames
+              if pid == ids['sb.play.chat'] and bytes(b)[1:2] == b'w']
+        nums = []
+        for b in ws:
+            try:
+                nums.append(int(wire.read_string(b, 0)[0][1:]))
+            except Exception:
+                nums.append(-1)
+        ob()
+        if nums != sorted(set(nums)) or -1 in nums:
+            V.append(('C11/forced-writer-stream', {'seen': nums[:12]}))
+        res.probes['forced-writer-alongside'] = 1
     # nothing unexpected on the wire
     allowed = {ka_id, ids['sb.play.chat'], ids['sb.play.position'],
                ids['sb.play.teleport_confirm']}
